@@ -50,13 +50,12 @@ def tokens(g):
     return out
 
 
-def ref(ts, wide, lfmodel=False):
-    """Reference language. wide: `**/` may also match zero directories.
-    lfmodel: the recorded LF artefact (`**` compiled to `.*` refuses LF, `$` accepts one trailing LF)."""
+def ref(ts, wide):
+    """Reference language. wide: `**/` may also match zero directories."""
     parts = []
     i = 0
     one = NOSLASH
-    anyc = NOLF_CH if lfmodel else R.ALLCHAR
+    anyc = R.ALLCHAR
     while i < len(ts):
         t = ts[i]
         if t[0] == "lit":
@@ -70,55 +69,7 @@ def ref(ts, wide, lfmodel=False):
             else:
                 parts.append(z3.Star(anyc))
         i += 1
-    if lfmodel:
-        parts.append(z3.Option(R.LF))
     return R.concat(parts)
-
-
-# ---- known-finding classes (syntactic signatures of the failing globs) ----
-def kclasses(ts, broad=False):
-    """-> {finding key: set of excused directions} for the token list of a glob.
-    broad=True (used for the seeded random globs, so that no seed can raise a false alarm through
-    an unforeseen combination of the listed defects): a glob showing a defect's trigger is excused
-    in both directions; the completely enumerated globs use the precise, direction-aware classes."""
-    out = _kclasses(ts)
-    if broad:
-        out = {k: {"under", "over"} for k in out}
-    return out
-
-
-def _kclasses(ts):
-    out = {}
-    # (1) an escaped asterisk is remembered as a pending wildcard
-    if any(t[0] == "lit" and t[1] == "*" and t[2] for t in ts):
-        out["escaped-asterisk:overmatch"] = {"over"}
-    # (2) a single '*' directly before a backslash escape is dropped
-    if any(ts[i] == ("st",) and ts[i + 1][0] == "lit" and ts[i + 1][2] for i in range(len(ts) - 1)):
-        out["star-before-escape:undermatch"] = {"under"}
-    # (3) after '**' the translator stays in "globstar mode" until the next literal other than
-    #     '/', '*', an escaped backslash or an escaped asterisk: '/' is swallowed and single asterisks are dropped
-    #     (a single '*' right after an escaped asterisk is also taken for '**', finding 1)
-    for i, t in enumerate(ts):
-        pseudo = t == ("st",) and i > 0 and ts[i - 1][0] == "lit" and ts[i - 1][1] == "*" and ts[i - 1][2]
-        if t != ("gs",) and not pseudo:
-            continue
-        j = i + 1
-        seen_bs = False
-        while j < len(ts):
-            u = ts[j]
-            if u in (("st",), ("gs",)):
-                if seen_bs:
-                    out.setdefault("globstar-mode:swallow", set()).update({"under", "over"})
-            elif u[0] == "lit" and u[1] == "/":
-                out.setdefault("globstar-mode:swallow", set()).add("over")
-                if seen_bs:
-                    out["globstar-mode:swallow"].add("under")
-            elif u[0] == "lit" and u[2] and u[1] in ("\\", "*"):
-                seen_bs = True  # an escaped backslash / asterisk does not end globstar mode either
-            else:
-                break
-            j += 1
-    return out
 
 
 def match_mode():
@@ -228,9 +179,6 @@ def run(ctx):
         try:
             item = AnnotationsItem(paths=[g])
             impl = R.language(item._paths_regex, mode)
-            impl_nolf_artefact = R.language(
-                re.compile(item._paths_regex.pattern, item._paths_regex.flags | re.DOTALL), mode, lf_free=True
-            )
         except R.Unsupported as e:
             ctx.harness_error(f"the compiled pattern of glob {g!r} is outside what vf/re2z3.py converts: {e}")
             ctx.ob(f"glob {g!r}", "RZ3", "inconclusive", detail=f"unsupported: {e}")
@@ -239,7 +187,6 @@ def run(ctx):
             st = ctx.violation(f"crash:{type(e).__name__}", f"glob {g!r} cannot be compiled: {e!r}", {"glob": g, "path": "", "expected": False})
             ctx.ob(f"glob {g!r}", "RZ3", st)
             continue
-        kin = kclasses(ts, broad=g in random_globs)
         for dom_name, dom in (("nolf", D_NOLF), ("lf", D_LF)):
             verdict = "holds"
             detail = None
@@ -263,24 +210,7 @@ def run(ctx):
                     verdict = "inconclusive"
                     continue
                 validated += 1
-                key = None
-                if dom_name == "lf":
-                    # is it exactly the recorded LF artefact?  Re-read the same compiled pattern
-                    # with DOTALL and a plain end anchor; if that language satisfies the
-                    # obligation on this domain, only the LF artefact is to blame.
-                    if direction == "under":
-                        r2, _ = q.diff(a, impl_nolf_artefact, dom)
-                    else:
-                        r2, _ = q.diff(impl_nolf_artefact, b, dom)
-                    if r2 == "unsat":
-                        key = "LF"
-                if key is None:
-                    for k in sorted(kin):
-                        if direction in kin[k]:
-                            key = k
-                            break
-                if key is None:
-                    key = f"glob:{g}:{direction}:{dom_name}"
+                key = f"glob:{g}:{direction}:{dom_name}"
                 what = f"glob {g!r} compiled to {item._paths_regex.pattern!r}: path {w!r} " + (
                     "is in the specified language but not matched" if expected else "is matched but outside the specified language"
                 )
